@@ -549,10 +549,9 @@ pub fn run_execution<R: Send + 'static>(
     for (t, task) in tasks.into_iter().enumerate() {
         let sched = sched.clone();
         let slots = slots.clone();
-        std::thread::Builder::new()
-            .name(format!("sim-task-{t}"))
-            .stack_size(4 << 20)
-            .spawn(move || {
+        pool_dispatch(
+            t,
+            Box::new(move || {
                 CUR.with(|c| *c.borrow_mut() = Some((sched.clone(), t)));
                 set_hash_stream(Some(crate::prng::mix64(hash_base ^ ((t as u64 + 1) << 32))));
                 let r = std::panic::catch_unwind(std::panic::AssertUnwindSafe(|| {
@@ -562,12 +561,13 @@ pub fn run_execution<R: Send + 'static>(
                     })
                 }));
                 CUR.with(|c| *c.borrow_mut() = None);
+                set_hash_stream(None);
                 if let Ok(res) = r {
                     slots.lock().unwrap_or_else(|e| e.into_inner())[t] = Some(res);
                 }
                 sched.task_finish(t);
-            })
-            .expect("spawn sim task");
+            }),
+        );
     }
     // start: give the baton to the first chosen task, then watch.
     {
@@ -624,4 +624,58 @@ pub fn run_execution<R: Send + 'static>(
     drop(g);
     let results = std::mem::take(&mut *slots.lock().unwrap_or_else(|e| e.into_inner()));
     ExecResult { results, abort, trace, digest, stats }
+}
+
+// ---- per-worker pool of task threads ------------------------------------------------------------
+//
+// Spawning fresh OS threads for every execution makes the whole process contend on the kernel's
+// address-space lock; each worker therefore keeps its task threads and hands them jobs.
+
+type Job = Box<dyn FnOnce() + Send + 'static>;
+
+struct PoolThread {
+    tx: std::sync::mpsc::Sender<Job>,
+    busy: Arc<std::sync::atomic::AtomicBool>,
+}
+
+thread_local! {
+    static POOL: RefCell<Vec<PoolThread>> = const { RefCell::new(Vec::new()) };
+}
+
+fn spawn_pool_thread(slot: usize) -> PoolThread {
+    let (tx, rx) = std::sync::mpsc::channel::<Job>();
+    let busy = Arc::new(std::sync::atomic::AtomicBool::new(false));
+    let b2 = busy.clone();
+    std::thread::Builder::new()
+        .name(format!("sim-task-{slot}"))
+        .stack_size(8 << 20)
+        .spawn(move || {
+            while let Ok(job) = rx.recv() {
+                job();
+                b2.store(false, std::sync::atomic::Ordering::SeqCst);
+            }
+        })
+        .expect("spawn sim task thread");
+    PoolThread { tx, busy }
+}
+
+fn pool_dispatch(slot: usize, job: Job) {
+    use std::sync::atomic::Ordering;
+    POOL.with(|p| {
+        let mut p = p.borrow_mut();
+        while p.len() <= slot {
+            let n = p.len();
+            p.push(spawn_pool_thread(n));
+        }
+        if p[slot].busy.load(Ordering::SeqCst) {
+            // still stuck in a previous execution (lost task): abandon it and start a new thread
+            p[slot] = spawn_pool_thread(slot);
+        }
+        p[slot].busy.store(true, Ordering::SeqCst);
+        if let Err(std::sync::mpsc::SendError(job)) = p[slot].tx.send(job) {
+            p[slot] = spawn_pool_thread(slot);
+            p[slot].busy.store(true, Ordering::SeqCst);
+            let _ = p[slot].tx.send(job);
+        }
+    });
 }
